@@ -271,6 +271,70 @@ def rule_r8(ctx):
                      "stored back-off exceeds NNG_OPT_RECONNMAXT" % t.line)
 
 
+def rule_r9(ctx):
+    r = ctx.rule("C14.R9", "T3", "dialers keep redialling after the remote end goes away: NNG_ECLOSED / NNG_ESTOPPED / NNG_ECANCELED tell a "
+                 "dialer that it was closed itself and end its redial loop, so a transport endpoint completes with such a code "
+                 "only operations parked on itself; an operation it takes from another endpoint's list (the connect requests of "
+                 "the clients queued on an inproc listener) gets a connection error", floor=8)
+    prog = ctx.prog
+    TERMINAL = {"NNG_ECLOSED", "NNG_ECANCELED", "NNG_ESTOPPED"}
+    FIN = {"nni_aio_finish_error": 1, "nni_aio_finish": 1, "nni_aio_finish_sync": 1}
+    TAKE = ("nni_list_first", "nni_list_next", "nni_list_last")
+    n = 0
+    for f in prog.functions:
+        if f.cfg_failed or "/transport/" not in "/" + f.file:
+            continue
+        params = {p_["n"] for p_ in f.params}
+        # wrappers of this file that pass a parameter through as the completion code
+        def code_arg(c):
+            fnm = c.node.get("fn")
+            if fnm in FIN:
+                return 0, FIN[fnm]
+            h = prog.resolve(f, fnm) if fnm else None
+            if h is not None and h.file == f.file and h.static and not h.cfg_failed:
+                names = [p_["n"] for p_ in h.params]
+                for c2 in h.calls(tuple(FIN)):
+                    a = [h.expand(x) if x is not None else None for x in c2.node["args"]]
+                    if len(a) > 1 and a[0] is not None and a[0].get("k") == "var" and a[0]["n"] in names and \
+                            a[1] is not None and a[1].get("k") == "var" and a[1]["n"] in names:
+                        return names.index(a[0]["n"]), names.index(a[1]["n"])
+            return None
+        for c in f.calls():
+            ca = code_arg(c)
+            if ca is None or max(ca) >= len(c.node["args"]):
+                continue
+            aio = f.expand(c.node["args"][ca[0]])
+            code = f.expand(c.node["args"][ca[1]])
+            if code is None or code.get("k") != "enum" or code.get("n") not in TERMINAL:
+                continue
+            if aio is None or aio.get("k") != "var":
+                continue
+            # where does the aio come from?
+            for _, d in G.reaching_defs(f, aio["n"], (c.b, c.i)):
+                if d is None or d.get("k") != "call" or d.get("fn") not in TAKE or not d["args"]:
+                    continue
+                lst = f.expand(d["args"][0])
+                root = lst
+                while root is not None and root.get("k") in ("un", "mem", "cast"):
+                    root = root.get("e") if root.get("k") in ("un", "cast") else root.get("b")
+                if root is None or root.get("k") != "var":
+                    continue
+                n += 1
+                # the list's owner: the function's own object (a parameter or a local initialised from one), or an element
+                # taken from a list (another endpoint)
+                foreign = any(x is not None and x.get("k") == "call" and x.get("fn") in TAKE for _, x in G.var_defs(f, root["n"]))
+                if foreign:
+                    ctx.fail(r, f, "%s completed with %s" % (show(lst), code["n"]), c.line,
+                             "%s completes an operation taken from %s -- a list of another endpoint (%s comes from a list "
+                             "traversal) -- with %s at line %s: the dialer that issued it takes this as its own close and never "
+                             "dials again, even after a new listener binds the address"
+                             % (f.name, show(lst), root["n"], code["n"], c.line))
+                else:
+                    r.ob(f, "%s line %s: %s is parked on the endpoint being closed itself" % (code["n"], c.line, show(lst)))
+    if n < 2:
+        raise AnalysisBroken("only %d terminal completions of listed operations found in the transports" % n)
+
+
 def run(ctx):
     ctx.guard(rule_r1)
     ctx.guard(rule_r2)
@@ -281,3 +345,4 @@ def run(ctx):
     for rr in ctx.rules:
         if rr.id == "C11.R4":
             rr.id = "C14.R6"
+    ctx.guard(rule_r9)
